@@ -18,7 +18,7 @@ structure LockInv (s : St) : Prop where
   d : ∀ w ∈ s.waiters.tail, w.2 ≠ .granted
 
 structure HeldBy (s : St) (tid : Nat) : Prop where
-  e : tid < s.tasks.length
+  e : ∃ t : Task, s.tasks[tid]? = some t ∧ t.pc ≠ .done
   l : s.locked = true
   n : ∀ (i : Nat) (t : Task), i ≠ tid → s.tasks[i]? = some t → inflightPc t.pc = false
   g : ∀ w ∈ s.waiters, w.2 ≠ .granted
@@ -120,7 +120,8 @@ theorem release_finish (s : St) (tid : Nat) (h : HeldBy s tid) : LockInv (finish
 theorem lockFree_iff (s : St) : lockFree s = true ↔ s.locked = false ∧ ∀ w ∈ s.waiters, w.2 = .cancelled := by
   simp [lockFree, List.all_eq_true]
 
-theorem acquire_got (s : St) (tid : Nat) (h : LockInv s) (he : tid < s.tasks.length) (hg : (acquire s tid).2 = true) :
+theorem acquire_got (s : St) (tid : Nat) (h : LockInv s) (he : ∃ t : Task, s.tasks[tid]? = some t ∧ t.pc ≠ .done)
+    (hg : (acquire s tid).2 = true) :
     HeldBy (acquire s tid).1 tid := by
   unfold acquire at hg ⊢
   split at hg
@@ -167,7 +168,9 @@ theorem acquire_held (s : St) (tid h : Nat) (hh : HeldBy s h) (hne : tid ≠ h) 
   unfold acquire
   simp only [hf, Bool.false_eq_true, ↓reduceIte, true_and]
   obtain ⟨e, l, n, g⟩ := hh
-  refine ⟨by simpa [setTask] using e, l, ?_, ?_⟩
+  refine ⟨?_, l, ?_, ?_⟩
+  · obtain ⟨t, ht, hp⟩ := e
+    exact ⟨t, by simp only [setTask]; rw [List.getElem?_modify_ne _ _ hne]; exact ht, hp⟩
   · intro i t hi ht
     simp only [setTask] at ht
     grind [inflightPc]
@@ -183,7 +186,7 @@ theorem acquire_held (s : St) (tid h : Nat) (hh : HeldBy s h) (hne : tid ≠ h) 
 structure Sim (s s' : St) : Prop where
   len : s'.tasks.length = s.tasks.length
   l : s'.locked = s.locked
-  t : ∀ (i : Nat) (t' : Task), s'.tasks[i]? = some t' → ∃ t0, s.tasks[i]? = some t0 ∧ t0.pc = t'.pc
+  t : ∀ (i : Nat) (t' : Task), s'.tasks[i]? = some t' → ∃ t0, s.tasks[i]? = some t0 ∧ t0.pc = t'.pc ∧ t0.kind = t'.kind
   w : ∃ f : Nat × WFut → Nat × WFut, s'.waiters = s.waiters.map f ∧ ∀ w, (f w).2 = .granted → w.2 = .granted
 
 theorem LockInv.sim {s s' : St} (h : LockInv s) (hs : Sim s s') : LockInv s' := by
@@ -191,11 +194,11 @@ theorem LockInv.sim {s s' : St} (h : LockInv s) (hs : Sim s s') : LockInv s' := 
   obtain ⟨_, hl, ht, f, hw, hf⟩ := hs
   constructor
   · intro i t' hi hp
-    obtain ⟨t0, h0, hpc⟩ := ht i t' hi
+    obtain ⟨t0, h0, hpc, _⟩ := ht i t' hi
     rw [hl]; exact a i t0 h0 (by rw [hpc]; exact hp)
   · intro i j ti tj hi hj hpi hpj
-    obtain ⟨t0, h0, hpc⟩ := ht i ti hi
-    obtain ⟨t1, h1, hpc1⟩ := ht j tj hj
+    obtain ⟨t0, h0, hpc, _⟩ := ht i ti hi
+    obtain ⟨t1, h1, hpc1, _⟩ := ht j tj hj
     exact b i j t0 t1 h0 h1 (by rw [hpc]; exact hpi) (by rw [hpc1]; exact hpj)
   · intro w hw' hg
     rw [hw] at hw'
@@ -209,16 +212,21 @@ theorem LockInv.sim {s s' : St} (h : LockInv s) (hs : Sim s s') : LockInv s' := 
 theorem HeldBy.sim {s s' : St} {tid : Nat} (h : HeldBy s tid) (hs : Sim s s') : HeldBy s' tid := by
   obtain ⟨e, l, n, g⟩ := h
   obtain ⟨hlen, hl, ht, f, hw, hf⟩ := hs
-  refine ⟨by omega, by rw [hl]; exact l, ?_, ?_⟩
+  refine ⟨?_, by rw [hl]; exact l, ?_, ?_⟩
+  · obtain ⟨t, hte, hp⟩ := e
+    have hlt : tid < s'.tasks.length := by rw [hlen]; exact (List.getElem?_eq_some_iff.mp hte).1
+    obtain ⟨t0, h0, hpc, _⟩ := ht tid s'.tasks[tid] (List.getElem?_eq_getElem hlt)
+    refine ⟨s'.tasks[tid], List.getElem?_eq_getElem hlt, ?_⟩
+    rw [← hpc]; rw [hte] at h0; cases h0; exact hp
   · intro i t' hi ht'
-    obtain ⟨t0, h0, hpc⟩ := ht i t' ht'
+    obtain ⟨t0, h0, hpc, _⟩ := ht i t' ht'
     rw [← hpc]; exact n i t0 hi h0
   · intro w hw' hg
     rw [hw] at hw'
     obtain ⟨w0, hw0, rfl⟩ := List.mem_map.mp hw'
     exact g w0 hw0 (hf w0 hg)
 
-theorem Sim.refl (s : St) : Sim s s := ⟨rfl, rfl, fun i t h => ⟨t, h, rfl⟩, id, by simp, fun _ h => h⟩
+theorem Sim.refl (s : St) : Sim s s := ⟨rfl, rfl, fun i t h => ⟨t, h, rfl, rfl⟩, id, by simp, fun _ h => h⟩
 
 theorem sim_mustCancel (s : St) (tid : Nat) : Sim s (setTask s tid fun t => { t with mustCancel := true }) := by
   refine ⟨by simp [setTask], rfl, ?_, id, by simp [setTask], fun _ h => h⟩
@@ -299,7 +307,7 @@ theorem connectLocked_inv (s : St) (tid : Nat) (h : HeldBy s tid) : LockInv (con
       exact h'.setPc _
 
 theorem append_inv (s : St) (k : Kind) (h : LockInv s) :
-    LockInv { s with tasks := s.tasks ++ [{ kind := k, pc := .done }] } := by
+    LockInv { s with tasks := s.tasks ++ [{ kind := k, pc := .running }] } := by
   obtain ⟨a, b, c, d⟩ := h
   constructor
   · intro i t ht hp
@@ -312,19 +320,24 @@ theorem append_inv (s : St) (k : Kind) (h : LockInv s) :
   · exact d
 
 theorem append_held (s : St) (k : Kind) (tid : Nat) (h : HeldBy s tid) :
-    HeldBy { s with tasks := s.tasks ++ [{ kind := k, pc := .done }] } tid := by
+    HeldBy { s with tasks := s.tasks ++ [{ kind := k, pc := .running }] } tid := by
   obtain ⟨e, l, n, g⟩ := h
-  refine ⟨by simp; omega, l, ?_, g⟩
-  intro i t hi ht
-  simp only at ht
-  grind [inflightPc]
+  refine ⟨?_, l, ?_, g⟩
+  · obtain ⟨t, ht, hp⟩ := e
+    refine ⟨t, ?_, hp⟩
+    simp only
+    rw [List.getElem?_append_left (List.getElem?_eq_some_iff.mp ht).1]; exact ht
+  · intro i t hi ht
+    simp only at ht
+    grind [inflightPc]
 
 theorem spawnConnect_inv (s : St) (h : LockInv s) : LockInv (spawnConnect s) := by
   unfold spawnConnect
   dsimp only
   have h1 := append_inv s .connect h
-  generalize hs1 : ({ s with tasks := s.tasks ++ [{ kind := Kind.connect, pc := Pc.done }] } : St) = s1 at h1
-  have hlen : s.tasks.length < s1.tasks.length := by rw [← hs1]; simp
+  generalize hs1 : ({ s with tasks := s.tasks ++ [{ kind := Kind.connect, pc := Pc.running }] } : St) = s1 at h1
+  have hlen : ∃ t : Task, s1.tasks[s.tasks.length]? = some t ∧ t.pc ≠ .done := by
+    rw [← hs1]; exact ⟨_, by simp; rfl, by simp⟩
   cases hg : (acquire s1 s.tasks.length).2
   · have := acquire_wait s1 _ h1 hg
     rw [show acquire s1 s.tasks.length = ((acquire s1 s.tasks.length).1, false) from by rw [← hg]]
@@ -337,8 +350,10 @@ theorem spawnConnect_held (s : St) (tid : Nat) (h : HeldBy s tid) : HeldBy (spaw
   unfold spawnConnect
   dsimp only
   have h1 := append_held s .connect tid h
-  generalize hs1 : ({ s with tasks := s.tasks ++ [{ kind := Kind.connect, pc := Pc.done }] } : St) = s1 at h1
-  have hne : s.tasks.length ≠ tid := by have := h.e; omega
+  generalize hs1 : ({ s with tasks := s.tasks ++ [{ kind := Kind.connect, pc := Pc.running }] } : St) = s1 at h1
+  have hne : s.tasks.length ≠ tid := by
+    obtain ⟨t, ht, _⟩ := h.e
+    have := (List.getElem?_eq_some_iff.mp ht).1; omega
   obtain ⟨hg, hh⟩ := acquire_held s1 s.tasks.length tid h1 hne
   rw [show acquire s1 s.tasks.length = ((acquire s1 s.tasks.length).1, false) from by rw [← hg]]
   exact hh.congr rfl rfl rfl
@@ -348,9 +363,9 @@ theorem Sim.trans {a b c : St} (h1 : Sim a b) (h2 : Sim b c) : Sim a c := by
   obtain ⟨l2, k2, t2, f2, w2, g2⟩ := h2
   refine ⟨by omega, by rw [k2, k1], ?_, f2 ∘ f1, by rw [w2, w1]; simp, fun w h => g1 w (g2 _ h)⟩
   intro i t' h
-  obtain ⟨tb, hb, pb⟩ := t2 i t' h
-  obtain ⟨ta, ha, pa⟩ := t1 i tb hb
-  exact ⟨ta, ha, by rw [pa, pb]⟩
+  obtain ⟨tb, hb, pb, kb⟩ := t2 i t' h
+  obtain ⟨ta, ha, pa, ka⟩ := t1 i tb hb
+  exact ⟨ta, ha, by rw [pa, pb], by rw [ka, kb]⟩
 
 theorem callConnectOnce_inv (s : St) (h : LockInv s) : LockInv (callConnectOnce s) := by
   unfold callConnectOnce
@@ -424,8 +439,9 @@ theorem spawn_inv (s : St) (k : Kind) (h : LockInv s) : LockInv (spawn s k) := b
   unfold spawn
   dsimp only
   have h1 := append_inv s k h
-  generalize hs1 : ({ s with tasks := s.tasks ++ [{ kind := k, pc := Pc.done }] } : St) = s1 at h1
-  have hlen : s.tasks.length < s1.tasks.length := by rw [← hs1]; simp
+  generalize hs1 : ({ s with tasks := s.tasks ++ [{ kind := k, pc := Pc.running }] } : St) = s1 at h1
+  have hlen : ∃ t : Task, s1.tasks[s.tasks.length]? = some t ∧ t.pc ≠ .done := by
+    rw [← hs1]; exact ⟨_, by simp; rfl, by simp⟩
   cases hg : (acquire s1 s.tasks.length).2
   · have := acquire_wait s1 _ h1 hg
     rw [show acquire s1 s.tasks.length = ((acquire s1 s.tasks.length).1, false) from by rw [← hg]]
@@ -458,7 +474,7 @@ theorem held_of_inflight (s : St) (tid : Nat) (t : Task) (h : LockInv s) (ht : s
     (hp : inflightPc t.pc = true) : HeldBy s tid := by
   obtain ⟨a, b, c, d⟩ := h
   have hl := a tid t ht hp
-  refine ⟨(List.getElem?_eq_some_iff.mp ht).1, hl, ?_, ?_⟩
+  refine ⟨⟨t, ht, by intro h; simp [h, inflightPc] at hp⟩, hl, ?_, ?_⟩
   · intro i t' hi ht'
     cases hp' : inflightPc t'.pc
     · rfl
@@ -466,12 +482,49 @@ theorem held_of_inflight (s : St) (tid : Nat) (t : Task) (h : LockInv s) (ht : s
   · intro w hw hg
     have := c w hw hg; simp [hl] at this
 
+theorem setRunning_held (s : St) (tid : Nat) (h : HeldBy s tid) :
+    HeldBy (setTask s tid fun t => { t with pc := .running }) tid := by
+  obtain ⟨⟨t, ht, hp⟩, l, n, g⟩ := h
+  refine ⟨⟨{ t with pc := .running }, by simp [setTask, ht], by simp⟩, l, ?_, g⟩
+  intro i t' hi ht'
+  simp only [setTask] at ht'
+  rw [List.getElem?_modify_ne _ _ (Ne.symm hi)] at ht'
+  exact n i t' hi ht'
+
+/-- a task woken with the lock granted to it holds it -/
+theorem granted_held (s : St) (tid : Nat) (t : Task) (h : LockInv s) (ht : s.tasks[tid]? = some t) (hpc : t.pc = .lockWait)
+    (hgr : (s.waiters.any fun w => decide (w.1 = tid ∧ w.2 = .granted)) = true) :
+    HeldBy (setTask { removeWaiter s tid with locked := true } tid fun t => { t with pc := .running }) tid := by
+  apply setRunning_held
+  -- the granted waiter is the head; nobody holds the lock
+  obtain ⟨w, hw, hwt, hwg⟩ : ∃ w ∈ s.waiters, w.1 = tid ∧ w.2 = .granted := by
+    simpa [List.any_eq_true] using hgr
+  have hl : s.locked = false := h.c w hw hwg
+  have hhead := granted_is_head s.waiters h.d w hw hwg
+  refine ⟨⟨t, ht, by rw [hpc]; decide⟩, rfl, ?_, ?_⟩
+  · intro i t' _ ht'
+    cases hp' : inflightPc t'.pc
+    · rfl
+    · have := h.a i t' ht' hp'; simp [hl] at this
+  · intro w' hw' hg'
+    simp only [removeWaiter] at hw'
+    have ⟨hm, hne⟩ := List.mem_filter.mp hw'
+    have : w' = w := by
+      rw [hhead] at hm
+      rcases List.mem_cons.mp hm with h1 | h1
+      · exact h1
+      · exact absurd hg' (h.d w' h1)
+    rw [this] at hne
+    simp [hwt] at hne
+
 theorem wakeTask_inv (s : St) (tid : Nat) (t : Task) (h : LockInv s) (ht : s.tasks[tid]? = some t) :
     LockInv (wakeTask s tid t) := by
   unfold wakeTask
   split
   · exact h
+  · exact h
   · -- lockWait
+    rename_i hpc
     dsimp only
     split
     · have h1 := removeWaiter_inv s tid h
@@ -482,27 +535,7 @@ theorem wakeTask_inv (s : St) (tid : Nat) (t : Task) (h : LockInv s) (ht : s.tas
         exact wakeUpFirst_inv _ h1 (by simpa using hl)
     · split
       · rename_i hgr
-        apply lockedBody_inv
-        -- the granted waiter is the head; nobody holds the lock
-        obtain ⟨w, hw, hwt, hwg⟩ : ∃ w ∈ s.waiters, w.1 = tid ∧ w.2 = .granted := by
-          simpa [List.any_eq_true] using hgr
-        have hl : s.locked = false := h.c w hw hwg
-        have hhead := granted_is_head s.waiters h.d w hw hwg
-        refine ⟨(List.getElem?_eq_some_iff.mp ht).1, rfl, ?_, ?_⟩
-        · intro i t' _ ht'
-          cases hp' : inflightPc t'.pc
-          · rfl
-          · have := h.a i t' ht' hp'; simp [hl] at this
-        · intro w' hw' hg'
-          simp only [removeWaiter] at hw'
-          have ⟨hm, hne⟩ := List.mem_filter.mp hw'
-          have : w' = w := by
-            rw [hhead] at hm
-            rcases List.mem_cons.mp hm with h1 | h1
-            · exact h1
-            · exact absurd hg' (h.d w' h1)
-          rw [this] at hne
-          simp [hwt] at hne
+        exact lockedBody_inv _ _ _ (granted_held s tid t h ht hpc hgr)
       · exact h
   · -- inStart
     have hh := held_of_inflight s tid t h ht (by rename_i hp; simp [hp, inflightPc])
